@@ -74,7 +74,17 @@ impl PV {
     }
     pub fn hash(&self) -> u64 {
         match self {
-            PV::Leaf(v) => combine(1, crate::vals::value_hash(v)),
+            PV::Leaf(v) => match crate::vals::as_vec(v) {
+                // canonical: a vector value hashes like the tuple of its children
+                Some(vs) => {
+                    let mut h = 3u64;
+                    for c in vs {
+                        h = combine(h, PV::Leaf(c).hash());
+                    }
+                    h
+                }
+                None => combine(1, crate::vals::value_hash(v)),
+            },
             PV::Poison(_) => 0xDEAD_0000_0000_0001,
             PV::Tup(cs) => {
                 let mut h = 3u64;
